@@ -511,7 +511,7 @@ def evaluate(rep: Report, cases: list[Case], stream: str, jitter: bool):
                     continue
                 seen.add(sig)
                 rep.count("violation:" + sig)
-                rep.violation(sig, what, {"case": c.describe(), "status": status, "traces": traces,
+                rep.violation(sig, what, {"kind": "sync-case", "case": c.describe(), "jitter_seed": js, "status": status, "traces": traces,
                                           "received": real_values(c, outs) if status == "ok" else None})
             # the hypothesis of the theorems (`Syncable`, decided by the model's checker): where it holds the real code
             # must complete and deliver exactly what was sent (TE.C15.syncable_checker_sound, checked against the code)
@@ -707,10 +707,36 @@ def search(rep: Report):
         outs, traces, status, _w = run_fake(c)
         bad = oracle(c, outs, status, traces)
         for sig, what in bad:
-            rep.violation(sig, what, {"case": c.describe(), "status": status, "traces": traces})
+            rep.violation(sig, what, {"kind": "sync-case", "case": c.describe(), "jitter_seed": None, "status": status, "traces": traces})
+
+
+def _nothing(reason):
+    raise ValueError(f"nothing to replay: {reason}")
 
 
 def replay(payload) -> bool:
-    c = case_from(payload["replay"]["case"])
-    outs, traces, status, _w = run_fake(c)
-    return not oracle(c, outs, status, traces)
+    """True iff the property holds on the recorded case: entry point, world, group, destination and every member's value
+    (tensors with dtype and shape, lists, dicts in their insertion order, ints, floats) are rebuilt from the description, the
+    real synclib runs on the fake transport (same arrival jitter seed as recorded) and `oracle` — the oracle of the sweep — decides."""
+    if not isinstance(payload, dict) or payload.get("kind", "failing-input") != "failing-input":
+        _nothing(f"payload kind {payload.get('kind') if isinstance(payload, dict) else None!r} carries no concrete input")
+    rp = payload.get("replay")
+    if not isinstance(rp, dict) or not rp:
+        _nothing("the payload carries no replay dict")
+    if rp.get("kind", "sync-case") != "sync-case":
+        _nothing(f"replay kind {rp.get('kind')!r} is not a send_tensors / sync_states case")
+    d = rp.get("case")
+    if not isinstance(d, dict) or d.get("entry") not in ("send", "sync") or not isinstance(d.get("vals"), dict) \
+            or not all(k in d for k in ("world", "group", "dst")):
+        _nothing("the payload carries no case description (entry, world, group, dst, per-member values)")
+    try:
+        c = case_from(d)
+    except (KeyError, ValueError, IndexError) as e:
+        _nothing(f"the recorded values cannot be decoded ({e!r})")
+    if sorted(c.vals) != sorted(c.group):
+        _nothing("the recorded values do not cover the members of the group")
+    outs, traces, status, _w = run_fake(c, jitter_seed=rp.get("jitter_seed"))
+    bad = oracle(c, outs, status, traces)
+    for sig, what in bad:
+        print(f"replay: {sig}: {what}"[:500])
+    return not bad
